@@ -9,7 +9,7 @@ HEADER = """C20 — Graphs may be mutated from inside edge loops and traversal c
    from inside the closure — one more instance of "arbitrary callback". Handles stay valid
    by construction: allocation ids are never reused or removed from the heap. That the implementation's iterators really hold
    no borrow/lock across the body is what the correspondence checks (RefCell panics / lock probe / watchdog)."""
-REQUIRES = ["From Gdsl.Model Require Import Spec Callback Mutation.", "From Gdsl.Proofs Require Import MutationProof."]
+REQUIRES = ["From Gdsl.Model Require Import Spec Callback Mutation.", "From Gdsl.Proofs Require Import MutationProof MutationBudget."]
 PINS = [
  ("c20_edge_loop_log_erase", "edge_loop_log_erase", "instrumenting the callback does not change an edge loop"),
  ("c20_traversal_log_erase", "run_search_log_erase", "... nor a search"),
@@ -24,4 +24,10 @@ PINS = [
  ("c20_edge_loop_terminates", "edge_loop_terminates", "an edge loop ends (within len - pos steps) once the closure no longer lengthens the walked list"),
  ("c20_traversal_terminates", "traversal_terminates", "a search terminates (fuel_bound suffices) when the closure adds neither nodes nor edges — it may remove them"),
  ("c20_order_terminates", "order_terminates", "same for orderings"),
+ ("c20_edge_loop_terminates_once_growth_stops", "edge_loop_terminates_budget", "\"terminates once the closure stops adding edges\", in full: the closure may lengthen the walked list as long as a budget on its own state lasts (at most g entries per unit spent); the loop then ends within len - pos + g * budget steps. Subsumes the previous statement (budget 0)"),
+ ("c20_traversal_terminates_once_growth_stops", "traversal_terminates_budget", "the same for every search (all kinds, directions, target / cycle): the closure may add edges AND allocate nodes while its budget lasts; an explicit fuel computed from the initial heap, g, gn and the budget suffices"),
+ ("c20_order_terminates_once_growth_stops", "order_terminates_budget", "the same for the orderings"),
+ ("c20_growing_closure_meets_budget", "add_first_budget", "non-vacuity: the closure add_first (duplicates the edge it is handed on its first c invocations, then stops) meets the budget hypotheses with budget = its counter, g = 2"),
+ ("c20_growing_closure_excluded_before", "add_first_grows", "... and it does lengthen a list, so the budget-free statements above did not cover it"),
+ ("c20_growing_closure_run", "run_add_first_bfs", "... and an actual run with exactly the fuel of the theorem: the search ends (Exhausted), the closure used up its budget, the degrees grew from [(1,1);(1,1)] to [(3,1);(1,3)]"),
 ]
